@@ -148,6 +148,14 @@ CHECKS = {
         text="Initial lists of 1..6 nodes from a 6-node universe (ports differ from the endpoint's) x use_vpc x delivery {whole, byte-wise}; all histories of depth <=2 (thorough 3) over up / down_last / down_first / replace_first / replace_all with rising config versions (9 -> 10 -> 11); the config reply additionally cut at every single byte position at construction and at the first reconfiguration. After construction and every reconfigure_nodes(): rotation and clients equal the advertised list by IP or host name and port, every key of a corpus (60, thorough 500) is served without exception by exactly one advertised node, nothing is sent to a node that is no longer advertised, no socket to a replaced node stays open. An ERROR endpoint must make constructor/reconfigure raise a memcached error (known finding).",
         note=TB + "The reply format of `config get cluster` follows the AWS documentation; every node is reachable by IP and by host name.",
     ),
+    "C04": dict(
+        engine="input-enumerator",
+        level="exploration",
+        technique="bounded-exhaustive enumeration of store/fetch round trips of the real client against the reference server over values x serializers x verbs x delivery modes and over key sets x prefixes x collection types",
+        design_ref="DESIGN.md section 3 / C04",
+        text="(D1) values - every byte string of length <=3 over {CR, LF, 'E', space, NUL, 0xff}, protocol-text values, sizes 0, 1, 4093..4099, 8190..8194 (thorough also 12288, 65536, 1 MiB-1), incompressible blocks, str/int, a grammar of picklable objects incl. falsy ones - x serde {none, custom flag-using, pickle protocols (3 in quick, 0..5 thorough), compressed with thresholds 400 and 1} x store {set, add, replace, cas, set_many} x fetch {get, gets, gat, gats, get_many, gets_many} x delivery {whole, per reply segment, byte-wise}; (D2) key sets (1-3 of a universe incl. 250-byte and multi-byte UTF-8 keys, all of it, lists with repeated keys) x prefix {none, ns:, 200 bytes} x allow_unicode_keys x {get_many, gets_many} x {list, tuple, set, dict view, iterator, generator}: identical bytes / equal value of the same type; every present key exactly once under the caller's key object; prefix on the wire, never in the result.",
+        note=TB + "Values above the item limit and calls mixing str/bytes spellings of one key are outside.",
+    ),
 }
 
 PENDING = "check not built yet in this session; planned engine and oracle are in DESIGN.md section 3"
@@ -158,7 +166,7 @@ ENGINES = [
      "serves_properties": ["C05", "C09", "C11", "C13", "C19"],
      "kind_free_text": "explicit-state BFS: a state is the event history reaching it, rebuilt on fresh real objects; canonical form de-duplicates; every transition runs the implementation"},
     {"name": "input-enumerator", "path": "checks/c02.py, checks/c20.py (and c14, c15, c17, c18)",
-     "serves_properties": ["C02", "C12", "C14", "C15", "C16", "C17", "C18", "C20"],
+     "serves_properties": ["C02", "C04", "C12", "C14", "C15", "C16", "C17", "C18", "C20"],
      "kind_free_text": "nested loops over a finite, explicitly listed input space; the real function is called once per element and compared with an independent reference"},
     {"name": "segmentation-enumerator", "path": "checks/c03.py", "serves_properties": ["C03"],
      "kind_free_text": "bounded-exhaustive enumeration of recv() segmentations of reference reply streams"},
